@@ -19,7 +19,7 @@ func init() {
 			"Signal sets the canceled flag before fanning out, visits every node, and skips only repeating steps (C05.signal-fanout)",
 			"Node.signal forwards the signal only under status==running ∧ cmd!=nil and uses signalOnStop only under allowOverride ∧ configured (C05.signal-table)",
 			"typestate: the guard of Kill must stay satisfiable for the re-sent / escalated signal (C05.escalation) — violated today, known finding F12",
-			"Agent.signal escalates with the constant SIGKILL, allowOverride=false, on a timer derived from MaxCleanUpTime; /stop uses (SIGTERM, true); OS signals (sig,false) (C05.agent-escalation)",
+			"Agent.signal escalates with the constant SIGKILL, allowOverride=false, on a timer derived from MaxCleanUpTime; /stop uses (SIGTERM, true); OS signals (sig,false); the first fan-out is sent under no condition on the run's state, so a stop arriving between two steps still sets the cancel flag (C05.agent-escalation)",
 			"the Kill of every process executor (executor holding an *exec.Cmd) returns nil only after the signal was sent, to the group -cmd.Process.Pid, helpers followed (C05.kill-delivers); those executors are created with Setpgid:true (C05.pgroup)",
 			"the context handed to exec derives from context.WithTimeout(ctx, sc.timeout) under timeout>0 and process executors use exec.CommandContext on it (C05.timeout-ctx)",
 			"cancel and exit handlers are selected (C04.handler-table shared)",
@@ -435,7 +435,7 @@ func c05SignalTable(e *Env, s *Sched) {
 
 func c05AgentEscalation(e *Env, s *Sched) {
 	r := e.R
-	r.Rule("C05.agent-escalation", "VF", "escalation: SIGKILL, no override, timer from MaxCleanUpTime; /stop=(SIGTERM,true)", 4)
+	r.Rule("C05.agent-escalation", "VF", "escalation: SIGKILL, no override, timer from MaxCleanUpTime; /stop=(SIGTERM,true); first send unconditional", 5)
 	schedSignal := e.Fn(schedRel, "(*Scheduler).Signal")
 	if schedSignal == nil {
 		return
@@ -570,6 +570,54 @@ func c05AgentEscalation(e *Env, s *Sched) {
 				// first send in the goroutine: requested signal and allowOverride parameter
 				r.Check(SameValue(args[2], sigParam) && SameValue(args[4], overrideParam) && !ir.IsNilConst(ir.Deep(args[3])), "Agent.signal: first send forwards (sig, allowOverride) and waits via done", e.InstrPos(ci),
 					"the first fan-out does not forward the requested signal / override flag or does not wait for the graph to stop")
+				// and it is sent whatever the run looks like at that instant: from the routine's
+				// entry to the send no condition other than a nil test. "No step is running"
+				// is also what a run looks like between two steps; a stop swallowed then never
+				// sets the cancel flag and the remaining steps are started.
+				var conds []ir.NLit
+				reached := false
+				var cur ssa.Instruction = ci
+				for d := 0; d < 6; d++ {
+					conds = append(conds, e.DCSBlock(cur.Block())...)
+					if cur.Parent() == fn {
+						reached = true
+						break
+					}
+					if us := ir.UniqueSite(cur.Parent()); us != nil {
+						cur = us
+						continue
+					}
+					// a closure: the place it is created at
+					var mk ssa.Instruction
+					nmk := 0
+					if par := cur.Parent().Parent(); par != nil {
+						for _, b := range par.Blocks {
+							for _, in := range b.Instrs {
+								if mc, ok := in.(*ssa.MakeClosure); ok && mc.Fn == ssa.Value(cur.Parent()) {
+									mk = in
+									nmk++
+								}
+							}
+						}
+					}
+					if nmk != 1 {
+						break
+					}
+					cur = mk
+				}
+				if !reached {
+					r.Unknown("Agent.signal: the first send is unconditional", e.InstrPos(ci), "the send is not connected to the routine through single call sites")
+				} else {
+					var other []ir.NLit
+					for _, l := range conds {
+						if l.Kind == "cmp" && (l.Op == token.NEQ || l.Op == token.EQL) && (ir.IsNilConst(l.Y) || ir.IsNilConst(l.X)) {
+							continue
+						}
+						other = append(other, l)
+					}
+					r.Check(len(other) == 0, "Agent.signal: the first send is unconditional", e.InstrPos(ci),
+						"a stop request / OS signal is forwarded to the scheduler only when the run is in some observed state: a stop arriving in the other states is acknowledged but never sets the cancel flag, so not-yet-started steps still run and the run is not bounded by the clean-up time", e.FactsStr("conditions from the routine's entry: ", other))
+				}
 			}
 		}
 	}
